@@ -491,10 +491,10 @@ Qed.
 
 (* two consecutive runs with one reporter: the second goes on from the first one's totals, whatever
    the reporter; so the reporters agree on both verdicts, the totals and everything reported *)
-Lemma two_runs_spec rk vexpr m cap n1 n2 :
-  rk_folds rk -> (1 <= cap)%nat -> is_suite n1 -> ok_tree m cap n1 -> is_suite n2 -> ok_tree m cap n2 ->
+Lemma two_runs_spec rk vexpr m1 m2 cap n1 n2 :
+  rk_folds rk -> (1 <= cap)%nat -> is_suite n1 -> ok_tree m1 cap n1 -> is_suite n2 -> ok_tree m2 cap n2 ->
   exists f1 f2,
-    run_two rk vexpr m cap n1 n2 =
+    run_two rk vexpr m1 m2 cap n1 n2 =
     (Finished (vexpr (passes (total n1)) (failures (total n1)) (skips (total n1)) (exceptions (total n1)))
               (mkp (node_c n1) (total n1) [] [] f1 (spec_events [] czero n1)),
      let t := cadd (total n1) (total n2) in
@@ -502,27 +502,42 @@ Lemma two_runs_spec rk vexpr m cap n1 n2 :
               (mkp (node_c n2) t [] [] f2 (spec_events [] (total n1) n2 ++ spec_events [] czero n1))).
 Proof.
   intros Hrk Hcap Hs1 Hok1 Hs2 Hok2.
-  destruct (run_node_spec rk m cap Hrk Hcap n1 Hs1 p_init Hok1 good_init) as (f1 & Hg1 & H1).
+  destruct (run_node_spec rk m1 cap Hrk Hcap n1 Hs1 p_init Hok1 good_init) as (f1 & Hg1 & H1).
   cbn [tot p_init c crumb pipe pfw out] in H1. rewrite cadd_zero_l, app_nil_r in H1.
   set (p1 := mkp (node_c n1) (total n1) [] [] f1 (spec_events [] czero n1)) in *.
   assert (Hgood : good p1) by (split; [reflexivity|exact Hg1]).
-  destruct (run_node_spec rk m cap Hrk Hcap n2 Hs2 p1 Hok2 Hgood) as (f2 & _ & H2).
+  destruct (run_node_spec rk m2 cap Hrk Hcap n2 Hs2 p1 Hok2 Hgood) as (f2 & _ & H2).
   exists f1, f2. unfold run_two, run_suite_from. rewrite H1. rewrite H2.
   unfold verdict_of. subst p1. cbn [tot c crumb pipe pfw out]. reflexivity.
 Qed.
 
-Lemma reporters_agree_two_runs rk1 rk2 m cap n1 n2 :
+Lemma reporters_agree_two_runs rk1 rk2 m1 m2 cap n1 n2 :
   In rk1 builtin_reporters -> In rk2 builtin_reporters -> (1 <= cap)%nat ->
-  is_suite n1 -> ok_tree m cap n1 -> is_suite n2 -> ok_tree m cap n2 ->
+  is_suite n1 -> ok_tree m1 cap n1 -> is_suite n2 -> ok_tree m2 cap n2 ->
   exists v1 v2 p1 p2 q1 q2,
-    run_two rk1 verdict_suite m cap n1 n2 = (Finished v1 p1, Finished v2 p2) /\
-    run_two rk2 verdict_suite m cap n1 n2 = (Finished v1 q1, Finished v2 q2) /\
+    run_two rk1 verdict_suite m1 m2 cap n1 n2 = (Finished v1 p1, Finished v2 p2) /\
+    run_two rk2 verdict_suite m1 m2 cap n1 n2 = (Finished v1 q1, Finished v2 q2) /\
     tot p1 = tot q1 /\ tot p2 = tot q2 /\ out p2 = out q2 /\ tot p2 = cadd (total n1) (total n2).
 Proof.
   intros H1 H2 Hcap Hs1 Hok1 Hs2 Hok2.
-  destruct (two_runs_spec rk1 verdict_suite m cap n1 n2 (builtin_rk_folds rk1 H1) Hcap Hs1 Hok1 Hs2 Hok2) as (f1 & f2 & R1).
-  destruct (two_runs_spec rk2 verdict_suite m cap n1 n2 (builtin_rk_folds rk2 H2) Hcap Hs1 Hok1 Hs2 Hok2) as (g1 & g2 & R2).
+  destruct (two_runs_spec rk1 verdict_suite m1 m2 cap n1 n2 (builtin_rk_folds rk1 H1) Hcap Hs1 Hok1 Hs2 Hok2) as (f1 & f2 & R1).
+  destruct (two_runs_spec rk2 verdict_suite m1 m2 cap n1 n2 (builtin_rk_folds rk2 H2) Hcap Hs1 Hok1 Hs2 Hok2) as (g1 & g2 & R2).
   do 6 eexists. split; [exact R1|]. split; [exact R2|]. cbn. auto.
+Qed.
+
+(* a run in the runner's own process followed by a forked run with the same reporter: whatever the
+   first run's tests did to the framework state, the second run reports exactly the specification's
+   events for its tree (every test its own results) *)
+Lemma second_run_unaffected rk cap n1 n2 :
+  In rk builtin_reporters -> (1 <= cap)%nat ->
+  is_suite n1 -> ok_tree InProcess cap n1 -> is_suite n2 -> ok_tree Forked cap n2 ->
+  exists v1 v2 p1 p2,
+    run_two rk verdict_suite InProcess Forked cap n1 n2 = (Finished v1 p1, Finished v2 p2) /\
+    out p2 = spec_events [] (total n1) n2 ++ spec_events [] czero n1 /\ tot p2 = cadd (total n1) (total n2).
+Proof.
+  intros H Hcap Hs1 Hok1 Hs2 Hok2.
+  destruct (two_runs_spec rk verdict_suite InProcess Forked cap n1 n2 (builtin_rk_folds rk H) Hcap Hs1 Hok1 Hs2 Hok2) as (f1 & f2 & R).
+  do 4 eexists. split; [exact R|]. cbn. auto.
 Qed.
 
 (* ------------------------------------------------------------------------------------ *)
